@@ -77,7 +77,10 @@ class SetTypes:
                     if (fn, pn) in self.names or not sites:
                         continue
                     args = [P.bind_args(c, fn).get(pn) for _, c in sites]
-                    if all(a is not None and self.is_set(a, caller) for a, (caller, _) in zip(args, sites)):
+                    dflt = _default_of(fn, pn)
+                    if all((a is not None and self.is_set(a, caller)) or
+                           (a is None and dflt is not None and self.is_set(dflt, fn.parent))
+                           for a, (caller, _) in zip(args, sites)):
                         self.names[(fn, pn)] = True
                         changed = True
 
@@ -111,6 +114,18 @@ class SetTypes:
                 "union", "intersection", "difference", "copy") and self.is_set(e.func.value, fn):
             return True
         return False
+
+
+def _default_of(fn, pname):
+    a = fn.node.args
+    pos = a.posonlyargs + a.args
+    for p, d in zip(pos[len(pos) - len(a.defaults):], a.defaults):
+        if p.arg == pname:
+            return d
+    for p, d in zip(a.kwonlyargs, a.kw_defaults):
+        if p.arg == pname:
+            return d
+    return None
 
 
 _ST = {}
@@ -191,6 +206,12 @@ def _set_context(n, st, fn):
             if ok:
                 return True, "ARGUMENT (parameter tracked as set)"
         return False, f"passed to `{P.text(p.func)}(...)`, which may depend on iteration order"
+    if isinstance(p, ast.arguments) and fld in ("defaults", "kw_defaults"):
+        owner = p._parent
+        g = next((x for x in n._mod.funcs.values() if x.node is owner), None)
+        if g is not None and any((g, pn) in st.names and _default_of(g, pn) is n for pn in g.params):
+            return True, "DEFAULT (parameter tracked as set)"
+        return False, "default of a parameter that is not tracked as a set"
     if isinstance(p, ast.keyword):
         call = p._parent
         kind, tg = P.resolve(call, fn) if fn is not None else ("unknown", None)
@@ -446,3 +467,268 @@ def rule_member(res, mods):
                     res.bad("R-EXHAUST-MEMBER", construct, f, n.lineno,
                             f"`{n.value.id}` ranges over members of kind {sorted(decl)}; `.{n.attr}` is not declared by "
                             f"{lacking}: AttributeError for a valid schema whose group/element has such a member")
+
+
+# ============================================================================ R-ASSUME-GUAR
+def _eq_guaranteed(node, fn, key_text, T, guar):
+    """Dominating `any(isinstance(m, C) and m.<field> == key ...)` with (C, field) a validator guarantee for table T."""
+    k = P.know_at(node, fn)
+    for key, v in k.K.items():
+        if key[0] != "truthy" or not v:
+            continue
+        c = k.forms.nodes.get(key[1])
+        if not (isinstance(c, ast.Call) and isinstance(c.func, ast.Name) and c.func.id == "any" and c.args
+                and isinstance(c.args[0], (ast.GeneratorExp, ast.ListComp))):
+            continue
+        gen = c.args[0]
+        forms = P.Forms()
+        f = forms.mk(gen.elt)
+        lits = f[1] if f[0] == "and" else [f]
+        cls = [x[1][2] for x in lits if x[0] == "lit" and x[2] and x[1][0] == "isinst"]
+        eqs = [x[1] for x in lits if x[0] == "lit" and x[2] and x[1][0] == "eq"]
+        for e in eqs:
+            for a, b in ((e[1], e[2]), (e[2], e[1])):
+                if b == key_text and "." in a:
+                    var, field = a.rsplit(".", 1)
+                    for cl in cls:
+                        if len(cl) == 1 and any(g["cls"] == cl[0] and g["field"] == field and g["table"] == T and g["types"] is None
+                                                for g in guar):
+                            return f"{cl[0]}.{field}"
+    return None
+
+
+def rule_guar(res, mods):
+    sm = P.model()
+    guar = P.validator_guarantees()
+    res.rule("R-ASSUME-GUAR", "every lookup schema.enums/groups/elements[key] in a generator uses a key that is a key of that "
+             "table, a field the validator checked for every declaration (under the same type condition), or is dominated "
+             "by a membership test; generators only see schemas returned by parse_file/parse_string", floor=16)
+    res.extra["validator_guarantees"] = [f"{g['cls']}.{g['field']} in {g['table']}" +
+                                         (f" when type in {sorted(g['types'])}" if g["types"] else "") for g in guar]
+    literals = {}
+    post = P.validate_postdominates()
+    post_ok = all(o[1] for o in post)
+    for construct, ok, line, msg in post:
+        if ok:
+            res.ok("R-ASSUME-GUAR", "mjcf_schema." + construct, {"file": sm.mod.rel, "line": line})
+        else:
+            res.bad("R-ASSUME-GUAR", "mjcf_schema." + construct, sm.mod.rel, line, msg)
+    for mod in mods:
+        f = _file(mod)
+        uses_schema = "mjcf_schema" in mod.imports
+        if uses_schema:
+            bad = None
+            got = False
+            for fn in mod.funcs.values():
+                for c in P.calls_in(fn):
+                    kind, p = P.resolve(c, fn, (sm.mod,))
+                    if kind == "class" and p in ("Schema", "_Parser"):
+                        bad = c
+                    if kind == "func" and any(g.mod is sm.mod and g.qual in ("_Parser.__init__", "_Parser.parse") for g in p) \
+                            and isinstance(c.func, ast.Attribute) and P.text(c.func).startswith("mjcf_schema."):
+                        bad = c
+                    if kind == "func" and any(g.mod is sm.mod and g.qual in ("parse_file", "parse_string") for g in p):
+                        got = True
+            construct = f"{mod.name}:schema-source"
+            if bad is not None:
+                res.bad("R-ASSUME-GUAR", construct, f, bad.lineno, f"`{P.text(bad)[:60]}` builds a schema that bypasses _validate")
+            elif got:
+                res.ok("R-ASSUME-GUAR", construct, {"file": f, "line": 1, "via": "mjcf_schema.parse_file"})
+        for fn in mod.funcs.values():
+            for n in mod.nodes(fn):
+                if not (isinstance(n, ast.Subscript) and isinstance(n.ctx, ast.Load) and P.table_of(n.value) and not n._ann):
+                    continue
+                T = P.table_of(n.value)
+                construct = f"{mod.name}.{fn.qual}:{P.text(n)}"
+                k = P.know_at(n, fn)
+                kt, ct = P.text(n.slice), P.text(n.value)
+                k.forms.nodes.setdefault(kt, n.slice)
+                k.forms.nodes.setdefault(ct, n.value)
+                if k.val(("in", kt, ct)) is True:
+                    res.ok("R-ASSUME-GUAR", construct, {"file": f, "line": n.lineno, "idiom": "MEMBERSHIP"})
+                    continue
+                eqg = _eq_guaranteed(n, fn, kt, T, guar)
+                if eqg and post_ok:
+                    res.ok("R-ASSUME-GUAR", construct, {"file": f, "line": n.lineno, "idiom": f"EQUALS-GUARANTEED {eqg}"})
+                    continue
+                org = P.origins(n.slice, fn, n)
+                miss, how = [], set()
+                for o in org:
+                    if o == ("key", T):
+                        how.add("KEY-OF-TABLE")
+                    elif o[0] == "literal" and isinstance(o[1], str):
+                        how.add("LITERAL-ANCHOR")
+                        literals.setdefault(T, set()).add(o[1])
+                    elif o[0] == "field" and post_ok and any(
+                            g["cls"] == o[1] and g["field"] == o[2] and g["table"] == T and
+                            (g["types"] is None or _types_at(n, fn, n.slice, sm) <= g["types"]) for g in guar):
+                        how.add(f"VALIDATOR-GUARANTEE {o[1]}.{o[2]}")
+                    else:
+                        miss.append(o)
+                if org and not miss:
+                    res.ok("R-ASSUME-GUAR", construct, {"file": f, "line": n.lineno, "idiom": sorted(how)})
+                else:
+                    res.bad("R-ASSUME-GUAR", construct, f, n.lineno,
+                            f"key of origin {sorted(map(str, miss or org))} is looked up in schema.{T} without a membership "
+                            "test; the validator does not guarantee it (KeyError for a valid schema)")
+    res.extra["literal_anchor_keys"] = {t: sorted(v) for t, v in literals.items()}
+    return literals
+
+
+def _types_at(node, fn, key_expr, sm):
+    if isinstance(key_expr, ast.Attribute) and isinstance(key_expr.value, ast.Name):
+        return frozenset(P.know_at(node, fn).values(f"{key_expr.value.id}.type", sm.types))
+    return frozenset(sm.types)
+
+
+# ============================================================================ R-RECURSION
+def _validator_acyclic_elements():
+    """A raise in the validator's closure that depends on membership of an element name in a walk accumulator that is
+    grown with that name, in a function that looks the name up in schema.elements: child nesting would be acyclic."""
+    sm = P.model()
+    m = sm.mod
+    for fn in P.closure([m.func("_validate")]):
+        for st in P.raise_sites(fn):
+            k = P.know_at(st, fn)
+            for key, v in k.K.items():
+                if key[0] == "in" and v and key[2].isidentifier():
+                    A, S = key[1], key[2]
+                    grown = any((isinstance(n, ast.BinOp) and P.text(n.left) == S and isinstance(n.right, (ast.List, ast.Set))
+                                 and any(P.text(e) == A for e in n.right.elts)) or
+                                (isinstance(n, ast.Call) and isinstance(n.func, ast.Attribute) and n.func.attr in ("append", "add")
+                                 and P.text(n.func.value) == S and n.args and P.text(n.args[0]) == A) for n in m.nodes(fn))
+                    looked = any((isinstance(n, ast.Subscript) and P.table_of(n.value) == "elements" and P.text(n.slice) == A) or
+                                 (isinstance(n, ast.Call) and isinstance(n.func, ast.Attribute) and n.func.attr == "get" and
+                                  P.table_of(n.func.value) == "elements" and n.args and P.text(n.args[0]) == A)
+                                 for n in m.nodes(fn))
+                    if grown and looked:
+                        return st.lineno
+    return None
+
+
+def _walks_elements(fn):
+    m = fn.mod
+    return any((isinstance(n, ast.Call) and isinstance(n.func, ast.Attribute) and n.func.attr == "children") or
+               (isinstance(n, ast.Subscript) and P.table_of(n.value) == "elements") for n in m.nodes(fn))
+
+
+def _ancestry_guard(fn, comp):
+    """A parameter P such that every recursive call passes `P | {x}` / `P + [x]` and `x in P` (either polarity) is tested
+    by an assert or a terminating if before the recursive call."""
+    m = fn.mod
+    rec = [c for c in P.calls_in(fn) if P.resolve(c, fn)[0] == "func" and any(g in comp for g in P.resolve(c, fn)[1])]
+    for pn in fn.params:
+        grown = []
+        for c in rec:
+            target = [g for g in P.resolve(c, fn)[1] if g in comp][0]
+            a = P.bind_args(c, target).get(pn)
+            if isinstance(a, ast.BinOp) and isinstance(a.op, (ast.BitOr, ast.Add)) and isinstance(a.left, ast.Name) and \
+                    a.left.id == pn and isinstance(a.right, (ast.Set, ast.List, ast.Tuple)) and len(a.right.elts) == 1:
+                grown.append(P.text(a.right.elts[0]))
+            else:
+                grown = None
+                break
+        if not grown:
+            continue
+        for n in m.nodes(fn):
+            tests = []
+            if isinstance(n, ast.Assert):
+                tests.append(n.test)
+            elif isinstance(n, ast.If) and (P.terminates(n.body, fn) or (n.orelse and P.terminates(n.orelse, fn))):
+                tests.append(n.test)
+            for t in tests:
+                for x in ast.walk(t):
+                    if isinstance(x, ast.Compare) and len(x.ops) == 1 and isinstance(x.ops[0], (ast.In, ast.NotIn)) and \
+                            P.text(x.comparators[0]) == pn and P.text(x.left) in grown and \
+                            all(P.pos(n) < P.pos(c) for c in rec):
+                        return f"{'assert' if isinstance(n, ast.Assert) else 'if'} {P.text(x)} with {pn} grown by {grown[0]}"
+    return None
+
+
+def rule_recursion(res, mods):
+    res.rule("R-RECURSION", "every walk over element children in a generator (recursive function or pop/push work list) "
+             "has an ancestry / visited guard, unless the validator makes child nesting acyclic", floor=3)
+    acyclic = _validator_acyclic_elements()
+    res.extra["validator_rejects_child_cycles"] = bool(acyclic)
+    funcs = [f for m in mods for f in m.funcs.values()]
+    for comp in P.sccs(funcs, (P.model().mod,)):
+        for fn in comp:
+            if not _walks_elements(fn):
+                continue
+            construct = f"{fn.mod.name}.{fn.qual}"
+            g = _ancestry_guard(fn, comp)
+            if g:
+                res.ok("R-RECURSION", construct, {"file": _file(fn.mod), "line": fn.node.lineno, "guard": g})
+            elif acyclic:
+                res.ok("R-RECURSION", construct, {"file": _file(fn.mod), "line": fn.node.lineno, "guard": f"validator line {acyclic}"})
+            else:
+                rec = [c for c in P.calls_in(fn) if P.resolve(c, fn)[0] == "func" and any(h in comp for h in P.resolve(c, fn)[1])]
+                res.bad("R-RECURSION", construct, _file(fn.mod), rec[0].lineno,
+                        f"recurses into child elements (`{P.text(rec[0])[:70]}`) with no ancestry/visited test; the validator "
+                        "accepts mutually recursive child declarations (the checked-in schema has body <-> frame), so a valid "
+                        "schema whose cycle does not go through the skipped cases recurses until RecursionError")
+    # work lists
+    for mod in mods:
+        for fn in mod.funcs.values():
+            for w in mod.nodes(fn):
+                if not isinstance(w, ast.While):
+                    continue
+                L = P.text(w.test)
+                pops = [n for n in ast.walk(w) if isinstance(n, ast.Call) and isinstance(n.func, ast.Attribute)
+                        and n.func.attr == "pop" and P.text(n.func.value) == L]
+                if not pops:
+                    continue
+                construct = f"{mod.name}.{fn.qual}:while {L}"
+                st = P.stmt_of(pops[0])
+                if not isinstance(st, ast.Assign):
+                    res.bad("R-RECURSION", construct, _file(mod), w.lineno, "work-list pop is not bound to a name")
+                    continue
+                tgt = st.targets[0]
+                keys = {P.text(tgt)} | ({"(" + ", ".join(P.text(e) for e in tgt.elts) + ")"} if isinstance(tgt, ast.Tuple) else set())
+                guard = None
+                for s in w.body:
+                    if isinstance(s, ast.If) and P.terminates(s.body, fn) and isinstance(s.test, ast.Compare) and \
+                            len(s.test.ops) == 1 and isinstance(s.test.ops[0], ast.In) and P.text(s.test.left) in keys:
+                        V = P.text(s.test.comparators[0])
+                        added = any(isinstance(n, ast.Call) and isinstance(n.func, ast.Attribute) and n.func.attr in ("add", "append")
+                                    and P.text(n.func.value) == V and n.args and P.text(n.args[0]) in keys
+                                    for b in w.body for n in ast.walk(b))
+                        if added:
+                            guard = f"if {P.text(s.test)}: skip; {V}.add(..)"
+                if guard:
+                    res.ok("R-RECURSION", construct, {"file": _file(mod), "line": w.lineno, "guard": guard})
+                else:
+                    res.bad("R-RECURSION", construct, _file(mod), w.lineno,
+                            f"work list `{L}` is popped and refilled without a visited-set test: does not terminate on cyclic references")
+
+
+# ============================================================================ entry
+def run(res, tier):
+    mods = _mods()
+    for m in mods:
+        if "generate" not in m.funcs:
+            raise AnalysisError(f"anchor vanished: {m.rel}: generate()")
+    res.trusted = ["CPython ast (parsing only; nothing from /repo is imported or executed)",
+                   "objects carrying schema field names are instances of mjcf_schema's own dataclasses"]
+    rule_determinism(res, mods)
+    rule_exhaust(res, mods)
+    rule_member(res, mods)
+    literals = rule_guar(res, mods)
+    rule_recursion(res, mods)
+    res.count("modules", len(mods) + 1)
+    res.count("functions", sum(len(m.funcs) for m in mods))
+    res.explanation = (
+        "Static lint of the seven schema generators plus the parts of mjcf_schema.py they consume (ast only). Decided: all "
+        "uses of set-typed values are order-free, no run-dependent reads; every dict lookup / if-elif chain / returning-if "
+        "chain keyed by attribute type, cardinality or constraint kind covers the values that can reach it (vocabularies "
+        "read from mjcf_schema.py: parse_type's return constraints, CARDINALITIES, CONSTRAINT_VERBS) or has a default/raise; "
+        "attributes of Group/Element members are isinstance-narrowed; every schema.enums/groups/elements lookup key is a key "
+        "of that table, a validator-checked field, guarded, or a hard-coded anchor name (listed); recursive and work-list "
+        "element walks have an ancestry/visited guard.")
+    res.not_decided = ("faithfulness of the emitted text (types, arities, defaults, enum constants) for all schemas; lookups in "
+                       "tables parsed from C headers (self.dims[...], struct fields); termination of generate_schema.py's "
+                       "text scanner.")
+    res.assumptions = ["generators are specified for schemas that declare the hard-coded anchor names: " +
+                       "; ".join(f"{t}: {', '.join(sorted(v))}" for t, v in sorted(literals.items())),
+                       "dict iteration is insertion-ordered (Python >= 3.7)",
+                       "assert statements are enabled (generate_dmcontrol's cycle guard is an assert)"]
